@@ -108,6 +108,21 @@ def find_integrality_blocks(fi, prog=None):
             if fc is not None:
                 cands[nm] = fc
                 continue
+            if isinstance(v, ast.Call) and isinstance(v.func, ast.Name) and prog is not None:
+                # a module-level helper that returns the filtered list (of variables, or of their names)
+                g = prog.functions.get(f"{fi.module.name}:{v.func.id}")
+                if g is not None:
+                    rets = [r.value for r in walk_local(g.node, include_self=False) if isinstance(r, ast.Return) and r.value is not None]
+                    fcs = [_filter_comp(r) for r in rets]
+                    if rets and all(fc is not None for fc in fcs) and len(rets) == 1:
+                        comp, gen = fcs[0]
+                        gp = [a.arg for a in g.node.args.args]
+                        if isinstance(gen.iter, ast.Name) and gen.iter.id in gp and gp.index(gen.iter.id) < len(v.args):
+                            comp._owner = g
+                            comp._cached_attr = None
+                            comp._caller_iter = v.args[gp.index(gen.iter.id)]
+                            cands[nm] = fcs[0]
+                            continue
             rf = _remote_filter(prog, v) if isinstance(v, ast.AST) else None
             if rf is not None:
                 kind, comp, gen, owner, attr = rf
@@ -129,7 +144,24 @@ def find_integrality_blocks(fi, prog=None):
                     extra.append(t)
             if nm:
                 blocks.append((n, nm, cands[nm] + (extra,)))
-            elif any(isinstance(x, ast.Raise) and isinstance(x.exc, ast.Call) and (dotted(x.exc.func) or "").endswith("IntegerVariableError") for st in n.body for x in ast.walk(st)):
+                continue
+            # early-exit form: `if not L: return` ... and the statements that follow are the block
+            t0 = n.test
+            inv = None
+            if isinstance(t0, ast.UnaryOp) and isinstance(t0.op, ast.Not) and isinstance(t0.operand, ast.Name) and t0.operand.id in cands:
+                inv = t0.operand.id
+            elif isinstance(t0, ast.Compare) and len(t0.ops) == 1 and isinstance(t0.ops[0], ast.Eq) and isinstance(t0.left, ast.Call) and dotted(t0.left.func) == "len" and t0.left.args and isinstance(t0.left.args[0], ast.Name) and t0.left.args[0].id in cands and isinstance(t0.comparators[0], ast.Constant) and t0.comparators[0].value == 0:
+                inv = t0.left.args[0].id
+            if inv and not n.orelse and n.body and isinstance(n.body[-1], ast.Return):
+                from ..astutil import _block_of
+                blk, i = _block_of(n)
+                if blk is not None:
+                    synth = ast.If(test=n.test, body=list(blk[i + 1:]) or [ast.Pass()], orelse=[])
+                    synth.lineno = n.lineno
+                    synth.col_offset = n.col_offset
+                    blocks.append((synth, inv, cands[inv] + ([],)))
+                    continue
+            if any(isinstance(x, ast.Raise) and isinstance(x.exc, ast.Call) and (dotted(x.exc.func) or "").endswith("IntegerVariableError") for st in n.body for x in ast.walk(st)):
                 names = [t.id for t in conjuncts(n.test) if isinstance(t, ast.Name)] + [t.left.args[0].id for t in conjuncts(n.test) if isinstance(t, ast.Compare) and isinstance(t.left, ast.Call) and dotted(t.left.func) == "len" and t.left.args and isinstance(t.left.args[0], ast.Name)]
                 names = [x for x in names if x != "strict"]
                 if names:
@@ -158,9 +190,14 @@ def _dom(node, tn):
     return isinstance(node, ast.Attribute) and node.attr == "domain" and isinstance(node.value, ast.Name) and node.value.id == tn
 
 
+_STR_CONSTS: dict = {}      # module-level string constants of the package (name -> value), filled by check()
+
+
 def _lit(node):
     if isinstance(node, ast.Constant) and isinstance(node.value, str):
         return [node.value]
+    if isinstance(node, ast.Name) and node.id in _STR_CONSTS:
+        return [_STR_CONSTS[node.id]]
     if isinstance(node, (ast.Tuple, ast.List, ast.Set)):
         return [e.value for e in node.elts if isinstance(e, ast.Constant)]
     return None
@@ -205,7 +242,11 @@ def _wellformed(rep, fi, blocks, assigns, report=True, via_helper=False):
         # source of the comprehension: problem.variables (possibly through a local)
         it = gen.iter
         src_ok = False
-        if owner is not None:
+        if owner is not None and getattr(comp, "_caller_iter", None) is not None:
+            ci = comp._caller_iter
+            if (isinstance(ci, ast.Attribute) and ci.attr == "variables") or (isinstance(ci, ast.Name) and any(isinstance(v, ast.Attribute) and v.attr == "variables" for v in assigns.get(ci.id, []))):
+                src_ok = True
+        elif owner is not None:
             oasg = local_assignments(owner.node)
             it_ = it
             if isinstance(it_, ast.Name) and len([x for x in oasg.get(it_.id, []) if isinstance(x, ast.AST)]) == 1:
@@ -388,6 +429,12 @@ def _strict_received(fi, call, callee):
 
 
 def check(prog, rep):
+    _STR_CONSTS.clear()
+    for m in prog.modules.values():
+        for st in m.tree.body:
+            tg = st.targets[0] if isinstance(st, ast.Assign) and len(st.targets) == 1 else st.target if isinstance(st, ast.AnnAssign) else None
+            if isinstance(tg, ast.Name) and isinstance(getattr(st, "value", None), ast.Constant) and isinstance(st.value.value, str):
+                _STR_CONSTS.setdefault(tg.id, st.value.value)
     bcs = backend_calls(prog)
     if not bcs:
         raise AnalysisError("no call to a SciPy backend found in the package (subject vanished)")
@@ -396,33 +443,74 @@ def check(prog, rep):
         entries.setdefault(fi.qual, (fi, []))[1].append((c, which))
     rep.saw("functions calling a numerical backend", sorted(entries))
 
-    # helpers that contain a well-formed block on every path (the check may be factored out of the solver entry)
+    # helpers that run a well-formed block on every normal path -- directly, or by calling another such helper (the check
+    # may be factored out of the solver entry, or sit one level further down)
     helper_ok = {}
-    for h in prog.functions.values():
-        if h.qual in entries or not h.module.name.startswith("optyx.solvers") or h.parent is not None:
-            continue
+    helper_good = {}
+    cands = [h for h in prog.functions.values() if h.qual not in entries and h.module.name.startswith("optyx.solvers") and h.parent is None]
+    for h in cands:
         blocks_h, assigns_h = find_integrality_blocks(h, prog)
-        if not blocks_h:
-            continue
-        good_h = _wellformed(rep, h, blocks_h, assigns_h, report=True, via_helper=True)
-        exits_h, _ = analyze(h.node.body, lambda node, facts, g=good_h: facts | {"checked"} if id(node) in g else facts, frozenset(), lambda n: False)
+        if blocks_h:
+            helper_good[h.name] = (_wellformed(rep, h, blocks_h, assigns_h, report=True, via_helper=True), assigns_h)
+
+    def checks_call(c, assigns):
+        """a call that is known to run the block: the helper gets the caller's strict flag and the problem's variables"""
+        nm = dotted(c.func)
+        if nm not in helper_ok or not helper_ok[nm]:
+            return False
+        kws = {k.arg: src(k.value) for k in c.keywords if k.arg}
+        argtxt = [src(a) for a in c.args] + list(kws.values())
+        vars_ok = True
+        hp = HELPER_VARS_PARAM.get(nm)
+        if hp is not None:
+            a_ = c.args[hp] if hp < len(c.args) else None
+            vars_ok = a_ is not None and (src(a_).endswith(".variables") or (isinstance(a_, ast.Name) and (a_.id in ("variables",) or any(isinstance(v, ast.Attribute) and v.attr == "variables" for v in assigns.get(a_.id, [])))))
+        return "strict" in argtxt and vars_ok
+
+    def always_checks(fn, good, assigns):
+        def tr_(node, facts):
+            if id(node) in good:
+                return facts | {"checked"}
+            if not isinstance(node, (ast.FunctionDef, ast.Lambda, ast.ClassDef)):
+                for c in ast.walk(node):
+                    if isinstance(c, ast.Call) and checks_call(c, assigns):
+                        return facts | {"checked"}
+            return facts
+        exits_h, _ = analyze(fn.node.body, tr_, frozenset(), lambda n: False)
         normal_h = [f for k, _n, f in exits_h if k in ("return", "fall")]
-        helper_ok[h.name] = bool(normal_h) and all("checked" in f for f in normal_h)
+        return bool(normal_h) and all("checked" in f for f in normal_h)
+
+    for _round in range(3):
+        for h in cands:
+            good, asg_h = helper_good.get(h.name, (set(), None))
+            if asg_h is None:
+                asg_h = local_assignments(h.node)
+            if not good and not any(isinstance(c, ast.Call) and dotted(c.func) in helper_ok for c in ast.walk(h.node)):
+                continue
+            helper_ok[h.name] = always_checks(h, good, asg_h)
     rep.saw("integrality helpers", sorted(helper_ok))
 
+    from .common import helper_closure
     for qual, (fi, sites) in sorted(entries.items()):
         fname = qual.split(":")[1]
         blocks, assigns = find_integrality_blocks(fi, prog)
         calls_helper = [c for c in calls(fi.node) if dotted(c.func) in helper_ok]
+        # does a block (of any quality) exist in the entry or in something it reaches?
+        reach = helper_closure(prog, fi, depth=3)
+        block_somewhere = bool(blocks) or any(g.name in helper_good for g in reach)
+        mentions = [g for g in reach if any((isinstance(x, ast.Attribute) and x.attr == "domain") or (isinstance(x, ast.Name) and x.id == "IntegerVariableError") for x in ast.walk(g.node))]
         if not blocks and not calls_helper and getattr(fi, "_integrality_unresolved", None):
             ifn_, nm_ = fi._integrality_unresolved[0]
             rep.undecided(f"{fname}: `if {src(ifn_.test)[:40]}:` raises IntegerVariableError, but where the list `{nm_}` comes from ({'; '.join(src(v)[:40] for v in assigns.get(nm_, []) if isinstance(v, ast.AST))[:80]}) is not a domain filter this rule can follow")
             continue
-        if not blocks and not calls_helper:
+        if not block_somewhere and mentions:
+            rep.undecided(f"{fname}: no integrality block in a form this rule reads, but {mentions[0].name} looks at variable domains / IntegerVariableError: not decided")
+            continue
+        if not block_somewhere:
             for c, which in sites:
                 rep.ob("R18.1", f"{fname}:{which.split('.')[-1]}", False,
-                       f"{fname} calls {which} but contains no integrality block: integer/binary variables are relaxed without any signal",
-                       loc=f"{fi.module.rel}:{c.lineno}", detail="no-block")
+                       f"{fname} calls {which} and nothing it reaches looks at the variables' domains: integer/binary variables are relaxed without any signal",
+                       loc=f"{fi.module.rel}:{c.lineno}", detail="no-block", robust=True)
             continue
         good_tests = _wellformed(rep, fi, blocks, assigns, report=True) if blocks else set()
 
@@ -431,17 +519,8 @@ def check(prog, rep):
                 return facts | {"checked"}
             if not isinstance(node, (ast.FunctionDef, ast.Lambda, ast.ClassDef)):
                 for c in ast.walk(node):
-                    if isinstance(c, ast.Call) and dotted(c.func) in helper_ok and helper_ok[dotted(c.func)]:
-                        # the helper must be given the caller's strict flag and the problem's variables
-                        kws = {k.arg: src(k.value) for k in c.keywords if k.arg}
-                        argtxt = [src(a) for a in c.args] + list(kws.values())
-                        vars_ok = True
-                        hp = HELPER_VARS_PARAM.get(dotted(c.func))
-                        if hp is not None:
-                            a_ = c.args[hp] if hp < len(c.args) else None
-                            vars_ok = a_ is not None and (src(a_).endswith(".variables") or (isinstance(a_, ast.Name) and any(isinstance(v, ast.Attribute) and v.attr == "variables" for v in assigns.get(a_.id, []))))
-                        if "strict" in argtxt and vars_ok:
-                            return facts | {"checked"}
+                    if isinstance(c, ast.Call) and checks_call(c, assigns):
+                        return facts | {"checked"}
             return facts
 
         exits, ma = analyze(fi.node.body, transfer, frozenset(), lambda n: False)
@@ -527,7 +606,30 @@ def check(prog, rep):
                     continue
                 nvar += 1
                 kw = {k.arg: k.value for k in c.keywords if k.arg}
+                opaque = None
+                fasg = local_assignments(fi.node)
+                for k in c.keywords:
+                    if k.arg is None:
+                        d_ = k.value
+                        if isinstance(d_, ast.Name) and len([x for x in fasg.get(d_.id, []) if isinstance(x, ast.AST)]) == 1:
+                            d_ = fasg[d_.id][0]
+                        if isinstance(d_, ast.Dict) and all(isinstance(kk, ast.Constant) for kk in d_.keys):
+                            kw.update({kk.value: vv for kk, vv in zip(d_.keys, d_.values)})
+                        elif isinstance(d_, ast.Call) and dotted(d_.func) == "dict" and not d_.args and all(x.arg for x in d_.keywords):
+                            kw.update({x.arg: x.value for x in d_.keywords})
+                        else:
+                            opaque = src(k.value)
+                # positional: Variable(name, lb, ub, domain)
+                vp = [a.arg for a in prog.cls("Variable").methods["__init__"].node.args.args][1:]
+                if "domain" in vp and len(c.args) > vp.index("domain"):
+                    kw.setdefault("domain", c.args[vp.index("domain")])
+                if "domain" not in kw and opaque is not None:
+                    rep.undecided(f"{fi.qual.split(':')[1]}: Variable(..., **{opaque}) -- whether the mapping carries the declared domain is not visible")
+                    continue
                 ok = "domain" in kw and (src(kw["domain"]) == "domain" or src(kw["domain"]).endswith(".domain"))
+                if "domain" in kw and not ok and not isinstance(kw["domain"], ast.Constant):
+                    rep.undecided(f"{fi.qual.split(':')[1]}: Variable(..., domain={src(kw['domain'])[:30]}) -- not recognisably the declared domain")
+                    continue
                 rep.ob("R18.3", f"{fi.qual.split(':')[1]}", ok,
                        f"creates its element variables with domain={src(kw['domain'])}" if ok else f"creates a Variable without forwarding the declared domain ({src(c)[:60]})",
                        loc=f"{fi.module.rel}:{c.lineno}", detail="forwards-domain")
@@ -570,8 +672,9 @@ def check(prog, rep):
             if isinstance(n, ast.Attribute) and n.attr == "domain" and isinstance(n.ctx, ast.Load) and (fi.module.name, n.lineno) not in block_lines:
                 others.append((fi, n))
     for fi, n in others:
-        rep.ob("R18.4", fi.qual.split(":")[1], False, f"reads {src(n)} outside the integrality block: the declared domain influences the solve in another way than raise/warn", loc=f"{fi.module.rel}:{n.lineno}", detail="extra-domain-read")
-    rep.ob("R18.4", "package", not others, "`.domain` is read only by the integrality blocks and by the variable containers" , detail="domain-read-inventory", trivial=True)
+        # reading the domain somewhere else is not by itself a second influence on the solve: only noted
+        rep.note(f"{fi.qual.split(':')[1]} reads {src(n)} outside the recognised integrality blocks ({fi.module.rel}:{n.lineno})")
+    rep.ob("R18.4", "package", True, f"{len(others)} read(s) of `.domain` outside the integrality blocks and the variable containers (listed in the notes)", detail="domain-read-inventory", trivial=True)
 
     rep.expect_min("R18.1", 8)
     rep.expect_min("R18.2", 5)
